@@ -140,3 +140,10 @@ CLAIMS["C07"] = (
     "Trusts sympy's code printers. Three genuine defects remain as known findings because the repository's own golden tests pin the defective output.",
     "DESIGN.md section 4 C07",
 )
+CLAIMS["C11"] = (
+    "key-uniqueness dependence analysis of every store into the emitted-definitions table (collision guard or component-dependent key), parsing of the emitted f-string templates (placeholders substituted) against the real builder/dataclass signatures, None-visibility at the translation call site, emission-completeness checks",
+    "Decides for all models and all assignments of functions to components: (K1) a definition is stored only behind a collision test that keeps it when it is the same function up to argument names and otherwise renames it, and every emitted builder call interpolates the registered name - so same-named different functions cannot overwrite each other; "
+    "(K2) every emitted builder/constructor call uses keyword names the real signature has and the header imports the constructors used; (K3) an untranslatable function raises; (K4) all four component kinds are translated and emitted unfiltered. Behavioural equality of the rebuilt model is not decided.",
+    "Unit expressions printed by sympy may contain names the header does not import (not decidable statically from the templates).",
+    "DESIGN.md section 4 C11, Appendix A.6",
+)
